@@ -888,8 +888,27 @@ def insertions(style, keys, base, unused):
         yield ['L', [make_resp(style, i, 'val', 1) for i in ids[:-1]] +
                [make_resp(style, None, 'val', 4)]]                 # unsortable: None
         yield ['L', [make_resp(style, i, 'val', 1, noid=(j == 0)) for j, i in enumerate(ids)]]
+    # response batches with a MALFORMED member whose id is recoverable: its id is that of an
+    # outstanding single request / of nothing; the batch is unknown, or the rest of it answers an
+    # outstanding batch.  Such a message is refused as a whole and completes nothing - in
+    # particular not the single request whose id the bad member carries.
+    bad_kinds = ('mal1',) if style != 'v2' else ('mal1', 'nojsonrpc')
+
+    def bad(i, kind, n=4):
+        if kind == 'nojsonrpc':
+            return make_resp('loose', i, 'val', n)       # lacks "jsonrpc":"2.0" under 2.0
+        return make_resp(style, i, kind, n)
+    for s_id in single_ids[:2] + [unused + 1]:
+        for kind in bad_kinds:
+            yield ['L', [bad(s_id, kind)]]
+            yield ['L', [make_resp(style, unused, 'val', 1), bad(s_id, kind)]]
+            yield ['L', [bad(s_id, kind), make_resp(style, unused, 'err', 1)]]
+            for ids in batch_keys[:1]:
+                yield ['L', [make_resp(style, i, 'val', 1) for i in ids[:-1]] + [bad(s_id, kind)]]
+                yield ['L', [make_resp(style, i, 'val', 1) for i in ids] + [bad(s_id, kind)]]
     if len(single_ids) >= 2:
         yield ['L', [make_resp(style, i, 'val', 1) for i in single_ids]]   # singles as a batch
+        yield ['L', [make_resp(style, single_ids[0], 'val', 1), bad(single_ids[1], 'mal1')]]
     yield ['L', [make_resp(style, 'a', 'val', 1), make_resp(style, 'b', 'val', 4)]]
     yield ['O', make_request(style, 5, 1)]
     yield ['O', make_request(style, None, 1)]
@@ -950,6 +969,18 @@ def random_case(rng, hostile=False):
                 key = rng.choice(pool)
                 kind = rng.choice(['val', 'val', 'err', 'mal1', 'mal2'] if hostile else
                                   ['val', 'val', 'val', 'err', 'err', 'mal1'])
+                if key[0] == 's' and can_batch and rng.random() < (0.12 if hostile else 0.06):
+                    # instead of the answer: a response batch (belonging to nothing) one member of
+                    # which is malformed and carries this single request's id; the request stays
+                    # outstanding and is answered later
+                    mb = make_resp(style, key[1][0], 'mal1', n) if style != 'v2' or rng.random() < 0.5 \
+                        else make_resp('loose', key[1][0], 'val', n)
+                    members = [make_resp(style, nxt + 1 + j, 'val', n + j) for j in range(rng.randint(0, 2))]
+                    members.insert(rng.randrange(len(members) + 1), mb)
+                    ops.append(['L', members])
+                    if inforce is None:
+                        inforce = py_detect(members)
+                    continue
                 if key[0] == 's' or (hostile and rng.random() < 0.15):
                     msg = ['R', make_resp(style, mutate_id(key[1][0]), kind, n,
                                           noid=hostile and rng.random() < 0.1)]
@@ -970,6 +1001,14 @@ def random_case(rng, hostile=False):
                         if mk == 'mal2' and style == 'loose':
                             mk = 'mal1'
                         members.append(make_resp(style, mutate_id(i), mk, n + j))
+                    singles = [k2[1][0] for k2 in keys if k2[0] == 's']
+                    if rng.random() < (0.25 if hostile else 0.1):
+                        # a malformed member carrying the id of an outstanding single request
+                        # (or of nothing)
+                        sid = rng.choice(singles) if singles and rng.random() < 0.8 else nxt + 2
+                        mb = make_resp(style, sid, 'mal1', n + 9) if style != 'v2' or rng.random() < 0.5 \
+                            else make_resp('loose', sid, 'val', n + 9)
+                        members.insert(rng.randrange(len(members) + 1), mb)
                     if not all(('result' in m or 'error' in m) for m in members):
                         continue
                     msg = ['L', members]
@@ -1045,6 +1084,48 @@ def reuse_cases():
                             yield {'proto': proto, 'ops': ops + tail}
 
 
+def malformed_member_cases():
+    """A single request s (and possibly a batch) is outstanding; the peer sends a response batch
+    one member of which is malformed with a recoverable id - the id of s, of a batch member, or of
+    nothing; the batch is unknown or (minus the bad member) the answer to the outstanding batch;
+    then the genuine answers arrive.  The bad batch is refused as a whole: s stays outstanding and
+    completes with its own response."""
+    for proto in ('v2', 'loose', 'auto'):
+        for style in _styles(proto):
+            if style == 'v1':
+                continue
+            kinds = ['mal1'] + (['nojsonrpc'] if style == 'v2' else [])
+            for with_batch in (False, True):
+                for kind in kinds:
+                    for target in ('single', 'member', 'nothing'):
+                        for shape in ('alone', 'first', 'last', 'with-batch-answer'):
+                            if (shape == 'with-batch-answer' or target == 'member') and not with_batch:
+                                continue
+                            ops = [['S', 1], ['S', 1]]
+                            bkey = None
+                            if with_batch:
+                                ops.append(['B', 'rnr', 1])
+                                bkey = ('b', (2, 3))
+                            unused = 7
+                            bid = {'single': 1, 'member': 3, 'nothing': unused + 1}[target]
+                            badm = make_resp('loose', bid, 'val', 4) if kind == 'nojsonrpc' \
+                                else make_resp(style, bid, 'mal1', 4)
+                            if shape == 'alone':
+                                ms = [badm]
+                            elif shape == 'first':
+                                ms = [badm, make_resp(style, unused, 'val', 1)]
+                            elif shape == 'last':
+                                ms = [make_resp(style, unused, 'err', 1), badm]
+                            else:
+                                ms = [make_resp(style, 2, 'val', 1), make_resp(style, 3, 'val', 10), badm]
+                            genuine = [answer_to(style, ('s', (1,)), 13), answer_to(style, ('s', (0,)), 16)]
+                            if bkey:
+                                genuine.append(answer_to(style, bkey, 19, order=[1, 0]))
+                            for tail in (genuine, list(reversed(genuine))):
+                                yield {'proto': proto, 'ops': ops + [['L', ms]] + tail}
+                                yield {'proto': proto, 'ops': ops + tail[:1] + [['L', ms]] + tail[1:]}
+
+
 def boundary_cases(warmups=(8, 98), sizes=(3,), extras=('', 'single', 'batch')):
     """ids across the digit boundaries 9/10 and 99/100: `w` singles are sent and answered, then
     a batch of >= 3 requests whose ids straddle the boundary (8,9,10 / 98,99,100) - alone, next
@@ -1117,6 +1198,7 @@ def run(ctx):
     # (b) targeted families, then exhaustive small scopes (smallest first; no enlarging once
     # something failed)
     evaluate(ctx, list(reuse_cases()), res, 'late_answer_after_later_request')
+    evaluate(ctx, list(malformed_member_cases()), res, 'malformed_member_of_response_batch')
     evaluate(ctx, list(boundary_cases()), res, 'ids_across_digit_boundaries')
     ex = list(exhaustive_cases(2, ['S', 'B:rr', 'B:rnr'], (0, 1)))
     evaluate(ctx, ex, res, 'exhaustive_2_sends')
